@@ -67,13 +67,18 @@ def gen_vs_prog(rng, wf=True):
             if i in any_regs or j in any_regs:
                 any_regs.add(n)
             n += 1
-        elif c < 0.9:
+        elif c < 0.9 or not wf:
             ops.append("H%d,%d" % (rng.randrange(n), rng.randrange(-3, 18)))
         else:
             ops.append("D%d,%d" % (rng.randrange(n), rng.randrange(n)))
     for i in range(n):
-        ops.append("L%d" % i)
-        ops.append("H%d,%d" % (i, rng.randrange(-3, 18)))
+        # with reversed (empty) ranges the stored representation and the disjointness answer depend on the
+        # iteration order of a Python set, which the model does not (and need not) reproduce: only
+        # membership is compared there (it is what `membership_after_ops` states without a WF hypothesis)
+        if wf:
+            ops.append("L%d" % i)
+        for v in ([rng.randrange(-3, 18)] if wf else range(-3, 18)):
+            ops.append("H%d,%d" % (i, v))
     return ops
 
 
